@@ -82,6 +82,22 @@ def run(tier, argv):
     for m in vlib.read_ndjson(rout):
         if m["what"] == "len":
             bad.append({"what": m["want"], "dialect": "regex type", "text": bytes(m["bytes"]).decode("latin-1"), "ok": m["got"].get("ok"), "len": m["got"].get("pos"), "msg": m["got"].get("msg")})
+    # every spelling of the Gaps token lists (schemas and the enum rule) that ends with its last token, followed by a line break and
+    # foreign text: Len is the length of the spelling
+    rawg = work.path("gaps.txt")
+    rg = vlib.tlc(work, "Gaps", "Gaps.cfg", consts={"Strength": "1" if quick else "2"}, to_file=rawg, timeout=3000, workers=1, heap="8g")
+    rep.add_tlc(rg, "Gaps (spellings followed by foreign text)")
+    gcases = work.path("gaps.ndjson")
+    with open(gcases, "w") as f:
+        for l in vlib.tagged_file(rawg, "@@CASE"):
+            f.write(l + "\n")
+    gm = work.path("gaps-len.ndjson")
+    p = vlib.run_harness(hbin, ["c13gaps", "-len", "-cases", gcases, "-out", gm], timeout=3000)
+    if p.returncode != 0:
+        raise vlib.Infra("c13gaps -len failed: " + p.stderr.decode()[-2000:])
+    rep.notes["gaps_len"] = semcommon.summary_of(p.stderr)
+    for m in vlib.read_ndjson(gm):
+        bad.append({"what": m["where"][:120], "dialect": "spelling + foreign text", "text": m["schema"], "ok": None, "len": None, "msg": ""})
     for b in semcommon.lex_diff_tier(work, rep, hbin, PROP, 200000 if quick else 20000000):
         bad.append({"what": b["what"] + " (differs from the frozen copy)", "dialect": "differential", "text": b["text"], "ok": b.get("ok"), "len": b.get("len"), "msg": b.get("msg")})
     by = {}
